@@ -79,6 +79,9 @@ type valCase struct {
 	// AfterFailure > 0: before the value is encoded, a marshal that fails after that many map entries were written
 	// is performed in the same process (earlier use of the library must not influence later documents)
 	AfterFailure int `json:"after_failed_marshal,omitempty"`
+	// NilEmpty: the Go value handed to the encoder holds nil (instead of empty non-nil) slices, maps and byte strings -
+	// the same abstract value ("an empty and a nil collection are the same value")
+	NilEmpty bool `json:"nil_empty,omitempty"`
 }
 
 var errFailedMarshal = errors.New("harness: marshaler failing midway")
@@ -279,6 +282,17 @@ func sanitizeUTF8(v *aval.V) (out *aval.V, changed bool, collision bool) {
 	return
 }
 
+// hasInvalidUTF8Fixed: some fixed leaf is not valid UTF-8 (its U+FFFD reading is longer than the declared size).
+func hasInvalidUTF8Fixed(v *aval.V) bool {
+	found := false
+	v.Walk(func(x *aval.V) {
+		if x.Kind == "fixed" && !utf8.Valid(x.Bytes()) {
+			found = true
+		}
+	})
+	return found
+}
+
 func hasInvalidUTF8(v *aval.V) bool {
 	_, changed, _ := sanitizeUTF8(v)
 	return changed
@@ -296,7 +310,7 @@ func labelsOf(t schema.Type, v *aval.V, format string) []string {
 
 func nonTrivial(classes []string) bool {
 	for _, c := range classes {
-		if strings.HasPrefix(c, "format=") || strings.HasPrefix(c, "root=") {
+		if strings.HasPrefix(c, "format=") || strings.HasPrefix(c, "root=") || c == "encoder_given_nil_collections" {
 			continue
 		}
 		return true
